@@ -1,5 +1,6 @@
 """C18 - a pickled or deep-copied interpreter continues exactly like the original (DESIGN.md section 4, C18)."""
 import copy
+import os
 import pickle
 
 from sim.chart import Cfg, swarm, gen_spec, build_api, cond_code
@@ -26,7 +27,7 @@ RULE = ('well-formed chart with contracts reading __old__, history states, sends
         'drawn boundaries (quick), and a second time a few steps later (restore, continue, crash again). The restored interpreter and the '
         'original are continued in lock-step and both must reproduce the undisturbed control run: macro steps, configurations, context, '
         'executed code with the __old__ values seen by conditions, exceptions. non-trivial = one (boundary, snapshot kind) whose '
-        'continuation has >= 1 macro step; distinct = distinct (chart, script, boundary, kind)')
+        'continuation has >= 1 macro step. After the batch the first 150 (quick) / 1500 (thorough) runs are done once more across processes: one process (PYTHONHASHSEED=1) runs the first half of the script and writes the pickle, another one (PYTHONHASHSEED=2) restores it and continues against its own control run; distinct = distinct (chart, script, boundary, kind)')
 COMPONENTS = {'real': common.REAL + ['pickle / copy.deepcopy of Interpreter, PythonEvaluator, Statechart, events', 'sismic.clock.SimulatedClock (a quarter of the runs; its wall-time source is scripted per interpreter)', 'sismic.clock.SynchronizedClock and a bound property statechart (a third of the runs)'], 'stub': common.STUB}
 ASSUMPTIONS = common.ASSUME + ['snapshots are taken between calls to execute_once, never inside one',
                                'after a ContractError the run ends (the interpreter is documented to be in an undefined state)']
@@ -154,8 +155,8 @@ def run(ch, tier):
         CUR[0] = None
 
 
-def _run(ch, tier):
-    res = Result()
+def prepare(ch, tier, res):
+    """the drawn chart, the script and the undisturbed control run (None if the run has nothing to snapshot)"""
     cfg = swarm(ch.s('cfg'), Cfg(contracts=True, bump=True, sends=True, delays=True, history=True), tier)
     if ch.s('cfg').flag(1, 2):      # history gadgets: the remembered sub-configuration is part of the durable state
         cfg.history = cfg.force_history = True
@@ -212,6 +213,15 @@ def _run(ch, tier):
                 raise Abandon('other: unexpected %s in the control run' % outs[-1][3][0])
             res.stats['control_ended_by_property_statechart' if outs[-1][3][0] == 'PropertyStatechartError' else 'control_ended_by_contract_error'] += 1
             break
+    return dict(sp=sp, cond_truth=cond_truth, echoes=echoes, watch=watch, realclock=realclock, script=script, outs=outs, fs=fs,
+                control=control)
+
+
+def _run(ch, tier):
+    res = Result()
+    g = prepare(ch, tier, res)
+    sp, cond_truth, echoes, watch, realclock = g['sp'], g['cond_truth'], g['echoes'], g['watch'], g['realclock']
+    script, outs, fs, control = g['script'], g['outs'], g['fs'], g['control']
     PROTOCOL[0] = fs.pick([None, 2, 3, 4, 5, 0])
     bounds = list(range(1, len(script)))     # snapshot taken before script[b]
     if not bounds:
@@ -275,3 +285,126 @@ def _run(ch, tier):
                     res.sample = {'chart': sp.describe()[:14], 'script': [repr(o)[:70] for o in script][:14], 'boundary': b, 'kind': kind}
     res.sim_time = float(control.it.time)
     return res
+
+
+# ----------------------------------------------------------------------------- restore in another process
+
+def _xp_case(tier, batch_seed, i):
+    from sim.engine import Choices, seed_for
+    ch = Choices(seed=seed_for(ID, batch_seed, i))
+    res = Result()
+    try:
+        g = prepare(ch, tier, res)
+    except Abandon:
+        return None
+    if len(g['script']) < 3:
+        return None
+    g['b'] = max(1, len(g['script']) // 2)
+    return g
+
+
+def xp_child(argv):
+    """dump: run the first half of every case and write the pickled interpreter; load: restore it (in this other process,
+    under another string-hash seed) and continue against this process' own undisturbed control run"""
+    import json
+    mode, tier, batch_seed, n, outdir = argv[0], argv[1], int(argv[2]), int(argv[3]), argv[4]
+    only = int(argv[5]) if len(argv) > 5 else None
+    saved = clockmod.time
+    clockmod.time = _wall
+    try:
+        for i in ([only] if only is not None else range(n)):
+            g = _xp_case(tier, batch_seed, i)
+            if g is None:
+                continue
+            path = os.path.join(outdir, '%d.pkl' % i)
+            if mode == 'dump':
+                orig = fresh(g['sp'], g['cond_truth'], g['echoes'], g['watch'], g['realclock'])
+                for k in range(g['b']):
+                    orig.play(g['script'][k])
+                CUR[0] = orig
+                with open(path, 'wb') as f:
+                    pickle.dump((orig.it, orig.wall), f)
+                continue
+            if not os.path.exists(path):
+                continue
+            with open(path, 'rb') as f:
+                try:
+                    it2, wall = pickle.load(f)
+                except Exception as e:
+                    print('XP %d DIFF %s' % (i, json.dumps('pickle.load in another process raised %s: %s' % (type(e).__name__, str(e)[:100]))))
+                    continue
+            pl = Player(it2, wall=wall)
+            verdict = 'ok'
+            for k in range(g['b'], len(g['script'])):
+                got = pl.play(g['script'][k])
+                want = g['outs'][k]
+                if got != want:
+                    fields = ['macro step', 'configuration', 'context', 'exception', 'executed code', 'time', 'final']
+                    d = [(f_, x, y) for f_, x, y in zip(fields, got or (), want or ()) if x != y]
+                    f_, x, y = d[0] if d else ('result', got, want)
+                    verdict = 'DIFF ' + json.dumps('snapshot by pickle before operation %d, restored in another process; at operation %d (%s) '
+                                                   'the restored interpreter differs from the undisturbed control in %s: %r, control: %r' % (
+                                                       g['b'], k, g['script'][k][0], f_, x, y))
+                    break
+                if pl.dead:
+                    break
+            print('XP %d %s' % (i, verdict))
+    finally:
+        clockmod.time = saved
+        CUR[0] = None
+    return 0
+
+
+def _xp_spawn(hashseed, mode, tier, batch_seed, n, outdir, only=None):
+    import subprocess
+    import sys
+    from sim.engine import VERIF
+    env = dict(os.environ, PYTHONHASHSEED=str(hashseed))
+    args = [sys.executable, '-c', 'import sys; sys.path.insert(0, %r); from sim.checks import c18; sys.exit(c18.xp_child(sys.argv[1:]))' % VERIF,
+            mode, tier, str(batch_seed), str(n), outdir] + ([str(only)] if only is not None else [])
+    p = subprocess.run(args, env=env, capture_output=True, text=True, timeout=1500, cwd=VERIF)
+    if p.returncode != 0:
+        raise RuntimeError('cross-process child (%s) failed: %s %s' % (mode, p.stdout[-300:], p.stderr[-1500:]))
+    return [l for l in p.stdout.splitlines() if l.startswith('XP ')]
+
+
+def _xp(tier, batch_seed, n, only=None):
+    import json
+    import shutil
+    import tempfile
+    tmp = tempfile.mkdtemp(prefix='sim-c18-xp-')
+    try:
+        _xp_spawn(1, 'dump', tier, batch_seed, n, tmp, only)
+        lines = _xp_spawn(2, 'load', tier, batch_seed, n, tmp, only)
+    finally:
+        shutil.rmtree(tmp, ignore_errors=True)
+    out = []
+    for l in lines:
+        _, i, rest = l.split(' ', 2)
+        out.append((int(i), None if rest == 'ok' else json.loads(rest[5:])))
+    return out
+
+
+def post_batch(tier, batch_seed, agg):
+    """engine hook: the first runs of the batch once more, the snapshot written by one process (PYTHONHASHSEED=1) and restored
+    by another (PYTHONHASHSEED=2)"""
+    from sim.engine import seed_for
+    n = 150 if tier == 'quick' else 1500
+    rows = _xp(tier, batch_seed, n)
+    stats = {'snapshots_restored_in_another_process': len(rows), 'fault_crash_restore_in_another_process': len(rows)}
+    for i, why in rows:
+        if why is not None:
+            return stats, {'run': i, 'seed': seed_for(ID, batch_seed, i), 'record': {},
+                           'violation': {'cls': 'restored-in-another-process-diverges', 'msg': why, 'explained': {}},
+                           'custom': {'mode': 'xprocess', 'tier': tier, 'batch_seed': batch_seed, 'run': i, 'hashseeds': [1, 2]}}
+    return stats, None
+
+
+def replay_custom(doc):
+    c = doc['custom']
+    rows = _xp(c['tier'], c['batch_seed'], c['run'] + 1, only=c['run'])
+    bad = [w for i, w in rows if w is not None]
+    if bad:
+        print('replayed: ' + bad[0])
+        return True
+    return False
